@@ -62,7 +62,7 @@ func C20(tier string) {
 		dy = []float64{-4, -2, -1, -0.5, 0, 0.25, 1, 3, 4}
 	}
 	nd := []float64{-0.7, 0.1, 1.0 / 3, 2.3}
-	r.Rule(fmt.Sprintf("primaries: all unordered triples of chromaticity lattice points (step %.2f, x,y in [0.05,0.80], x+y<=1) with triangle area >= 0.01 x every lattice white strictly inside, plus %d published RGB spaces in all 6 primary orders; algebra: every matrix with entries in %v (9 entries) and in the non-dyadic alphabet %v with |det| >= 1e-3: Inverse, Transpose, MulV x 4 vectors, MulM both ways x 14 partner matrices against row-major float64 / Gauss-Jordan; singular: every matrix from both alphabets with a repeated or zero column must panic; distinct = configurations / matrices passing the non-degeneracy filter", step, len(refs.PublishedSpaces), dy, nd))
+	r.Rule(fmt.Sprintf("primaries: all unordered triples of chromaticity lattice points (step %.2f, x,y in [0.05,0.80], x+y<=1) with triangle area >= 0.01 x every lattice white strictly inside, plus %d published RGB spaces in all 6 primary orders; every sequence of up to 3 requests over 2 primary sets x 3 primary-luminance triples x 3 whites (the matrix does not depend on the primaries\u2019 Y); algebra: every matrix with entries in %v (9 entries) and in the non-dyadic alphabet %v with |det| >= 1e-3: Inverse, Transpose, MulV x 4 vectors, MulM both ways x 14 partner matrices against row-major float64 / Gauss-Jordan; singular: every matrix from both alphabets with a repeated or zero column must panic; distinct = configurations / matrices passing the non-degeneracy filter", step, len(refs.PublishedSpaces), dy, nd))
 	r.Assume("reference matrices derive from the same float32 chromaticities converted exactly to float64 (the package converts xyY->XYZ in float32; tolerance 4e-7*(1+cond) covers that step)")
 	r.Assume("exactly singular means a repeated or zero column, for which the package's adjugate expansion cancels term by term; matrices singular only in exact arithmetic are not demanded to panic")
 
@@ -158,6 +158,52 @@ func C20(tier string) {
 			checkPrim(sp.Name, f(p[o[0]]), f(p[o[1]]), f(p[o[2]]), f(sp.W))
 			r.Eval(1)
 			r.DistinctN(1)
+		}
+	}
+	// request sequences: same chromaticities with different primary luminances,
+	// same primaries with different whites, in every order up to length 3
+	{
+		type req struct {
+			p  refs.Primaries
+			yy [3]float32
+			w  refs.XY
+		}
+		s, p3 := refs.PublishedSpaces[0], refs.PublishedSpaces[3]
+		var reqs []req
+		for _, pr := range []refs.Primaries{s, p3} {
+			for _, yy := range [][3]float32{{1, 1, 1}, {0.2126, 0.7152, 0.0722}, {3, 0.5, 10}} {
+				for _, w := range []refs.XY{refs.D65pub, refs.D50pub, {X: 0.314, Y: 0.351}} {
+					reqs = append(reqs, req{pr, yy, w})
+				}
+			}
+		}
+		n := len(reqs)
+		for l := 1; l <= 3; l++ {
+			tot := ipow(n, l)
+			for idx := 0; idx < tot; idx++ {
+				q := idx
+				var trace []string
+				for k := 0; k < l; k++ {
+					rq := reqs[q%n]
+					q /= n
+					f := func(v refs.XY, yy float32) ciexyy.Color {
+						return ciexyy.Color{X: float32(v.X), Y: float32(v.Y), YY: yy}
+					}
+					A, B, C, W := f(rq.p.R, rq.yy[0]), f(rq.p.G, rq.yy[1]), f(rq.p.B, rq.yy[2]), f(rq.w, 1)
+					got := m3of(ciexyz.TransformToXYZForXYYPrimaries(A, B, C, W))
+					gotInv := m3of(ciexyz.TransformFromXYZForXYYPrimaries(A, B, C, W))
+					ref := refs.RGBToXYZ(xyOf(A), xyOf(B), xyOf(C), xyOf(W))
+					trace = append(trace, fmt.Sprintf("%s primaries with Y=%v, white (%g,%g)", rq.p.Name, rq.yy, rq.w.X, rq.w.Y))
+					tol := 4e-7 * (1 + ref.Cond()*4) * math.Max(1, ref.NormInf())
+					if d := refs.MaxAbsDiff(got, ref); !(d <= tol) {
+						r.Violate("primaries/sequence", fmt.Sprintf("request %d of the sequence %v: RGB->XYZ differs from the reference by %.3g", k+1, trace, d), map[string]interface{}{"sequence": trace}, nil)
+					}
+					if d := refs.MaxAbsDiff(gotInv.Mul(got), refs.Identity()); !(d <= 1e-9*math.Max(1, ref.Cond())) {
+						r.Violate("primaries/sequence-inverse", fmt.Sprintf("request %d of the sequence %v: (XYZ->RGB)(RGB->XYZ) differs from identity by %.3g", k+1, trace, d), map[string]interface{}{"sequence": trace}, nil)
+					}
+					r.Eval(1)
+				}
+			}
 		}
 	}
 	to := ciexyz.TransformToXYZForXYYPrimaries(xyy(refs.PublishedSpaces[4].R), xyy(refs.PublishedSpaces[4].G), xyy(refs.PublishedSpaces[4].B), xyy(refs.PublishedSpaces[4].W))
